@@ -4,6 +4,7 @@ import LexVerif.Spec.Shortest
 import LexVerif.Model.FormatDecimal
 import LexVerif.Model.Ops.ParseInt
 import LexVerif.Model.Ops.FormatError
+import LexVerif.Model.Ops.WriteInt
 /-!
 # Driver — line-protocol evaluator of the Lean models and specifications
 
@@ -33,6 +34,15 @@ def specWI (ty : String) (fmt : Format) (feats : Features) (v : Int) : String :=
   let sign : List Nat :=
     if v < 0 then [45] else if feats.format ∧ fmt.requiredMantissaSign then [43] else []
   s!"ok {hexBytes (sign ++ numeral fmt.mantissaRadix v.natAbs)}"
+
+/-- with an explicit buffer length below the documented `FORMATTED_SIZE(_DECIMAL)` a panic is also acceptable
+(C03 does not speak about undersized buffers; C09 does) -/
+def specWIbuf (ty : String) (fmt : Format) (feats : Features) (v : Int) (buflen : String) : String :=
+  let s := specWI ty fmt feats v
+  match IntTy.ofName ty, buflen.toNat? with
+  | some t, some n =>
+    if n < LexVerif.Model.WriteInt.bufferSizeConst feats t fmt.mantissaRadix then s ++ " || panic" else s
+  | _, _ => s
 
 def pOptsOf (a : List String) : POpts :=
   -- [lossy, exp, dp, nan, inf, infinity]
@@ -123,8 +133,8 @@ def specOf (feats : Features) (t : List String) : String :=
   match op, t.tail with
   | "dpi", [ty, p, h] => specPI ty Format.standard (p = "1") (unhexBytes h)
   | "pi", [ty, f, p, _nm, h] => specPI ty (fmtOf f) (p = "1") (unhexBytes h)
-  | "dwi", ty :: v :: _ => specWI ty Format.standard feats (parseIntD v)
-  | "wi", ty :: f :: v :: _ => specWI ty (fmtOf f) feats (parseIntD v)
+  | "dwi", ty :: v :: rest => specWIbuf ty Format.standard feats (parseIntD v) (rest.headD "-")
+  | "wi", ty :: f :: v :: rest => specWIbuf ty (fmtOf f) feats (parseIntD v) (rest.headD "-")
   | "dpf", [ty, p, h] => specPF ty Format.standard (p = "1") (pOptsOf defaultPOpts) (unhexBytes h)
   | "pf", ty :: f :: p :: rest => specPF ty (fmtOf f) (p = "1") (pOptsOf (rest.take 6)) (unhexBytes (rest.getD 6 "_"))
   | "dwf", ty :: b :: _ => specWF' ty Format.standard feats ((ofHex b).getD 0) (wOptsOf defaultWOpts)
@@ -149,7 +159,7 @@ def specOf (feats : Features) (t : List String) : String :=
 /-- model column: the first handler that recognises the op answers.
 Each `Model/Ops/*.lean` exposes `handle : Features → List String → Option String`. -/
 def modelHandlers : List (Features → List String → Option String) :=
-  [LexVerif.Model.Ops.ParseInt.handle, LexVerif.Model.Ops.FormatError.handle]
+  [LexVerif.Model.Ops.ParseInt.handle, LexVerif.Model.Ops.FormatError.handle, LexVerif.Model.Ops.WriteInt.handle]
 
 def modelOf (feats : Features) (t : List String) : String :=
   (modelHandlers.findSome? (fun h => h feats t)).getD "-"
